@@ -1,5 +1,6 @@
 (* Property C08 — the encoded file depends only on PCM and options, not on how it was written. *)
-From FlacWriters Require Import Writers Lists_proofs Params_proofs Writers_proofs New_proofs.
+From FlacWriters Require Import Writers Lists_proofs Params_proofs Audio_proofs Writers_proofs New_proofs Run_proofs
+     Frontend_proofs Bytes_proofs Safety_proofs Cases.
 Open Scope N_scope.
 
 (* every partition of the input into write calls gives the same finished stream, STREAMINFO
@@ -24,3 +25,61 @@ Theorem C08_chunking_channel :
     Forall (chunk_ok (cw_chan w)) chunks ->
     channel_run enc_block md5 p w chunks = channel_run enc_block md5 p w [cconcat (cw_chan w) chunks].
 Proof. intros. apply channel_chunking; auto. eapply channel_new_wf; eauto. Qed.
+
+(* Front-ends: for the same PCM block, the channel writer, the byte writer (either byte order)
+   and the sample writer make the identical Encoder call (same channels handed to the block
+   encoder, same bookkeeping) and feed MD5 the identical bytes.  Together with the chunking
+   theorems (each front-end's result depends only on its concatenated input) this is why the
+   finished file does not depend on the front-end. *)
+Theorem C08_frontends_channel_block :
+  forall enc_block p ch bytes e (blk : block) m,
+    1 <= ch <= 8 -> length blk = N.to_nat ch -> Forall (fun c => length c = m) blk -> (1 <= m)%nat ->
+    channel_encode_chunk enc_block p ch bytes e blk =
+    sample_encode_chunk enc_block p ch bytes e (concat (multizip blk)).
+Proof. exact channel_block_as_samples. Qed.
+
+Theorem C08_frontends_byte_le_block :
+  forall enc_block p ch n e (buf : list N) m,
+    1 <= n <= 4 -> N.of_nat (length buf) = n * m -> Forall byte_ok buf ->
+    byte_encode_chunk enc_block p LE ch n e buf =
+    sample_encode_chunk enc_block p ch n e (map bytes_to_int_le (fst (drain (N.to_nat n) buf))).
+Proof. exact byte_block_as_samples_le. Qed.
+
+Theorem C08_frontends_byte_be_block :
+  forall enc_block p ch n e (buf : list N) m,
+    1 <= n <= 4 -> N.of_nat (length buf) = n * m -> Forall byte_ok buf ->
+    byte_encode_chunk enc_block p BE ch n e buf =
+    sample_encode_chunk enc_block p ch n e
+      (map (fun c => bytes_to_int_le (rev c)) (fst (drain (N.to_nat n) buf))).
+Proof. exact byte_block_as_samples_be. Qed.
+
+(* a trailing partial PCM frame is dropped: it changes nothing in the result *)
+Theorem C08_partial_dropped_sample :
+  forall enc_block md5 p prefix o rate bps ch total w (x partial : list Z),
+    options_wf o -> sample_new p prefix o rate bps ch total = Ok w ->
+    N.of_nat (length x) mod ch = 0 -> N.of_nat (length partial) < ch ->
+    sample_run enc_block md5 p w [x ++ partial] = sample_run enc_block md5 p w [x].
+Proof. intros. eapply sample_partial_dropped; eauto. Qed.
+
+(* no Panic: a run of the sample writer (any chunks) in a debug build can only stop on the
+   overflow trap of a 2^64 counter; the block encoder is assumed not to panic *)
+Theorem C08_no_panic_sample_debug :
+  forall enc_block md5 prefix o rate bps ch total w chunks,
+    (forall l, length (md5 l) = 16%nat) -> (forall n b, is_panic (enc_block n b) = false) ->
+    options_wf o -> sample_new Debug prefix o rate bps ch total = Ok w ->
+    match sample_run enc_block md5 Debug w chunks with Panic k => k = POverflow | _ => True end.
+Proof. intros. eapply sample_run_safe_debug; eauto. Qed.
+
+(* non-vacuity: the four front-ends on the same 3 PCM frames of 2 channels, 16 bits, written in
+   two calls that split mid-sample / mid-frame: same emitted blocks, same MD5 input *)
+Example C08_nonvacuous :
+  let o := options_no_seektable (options_no_padding (match options_block_size options_default 16 with Ok o => o | _ => options_default end)) in
+  let pcm := [1; -2; 300; -400; 32767; -32768]%Z in
+  let le := [1; 0; 254; 255; 44; 1; 112; 254; 255; 127; 0; 128] in
+  let be := [0; 1; 255; 254; 1; 44; 254; 112; 127; 255; 128; 0] in
+  exists r, run_c08_sample Release o 16 2 None [5; 1] pcm = Ok r /\
+            run_c08_sample Release o 16 2 None [6] pcm = Ok r /\
+            run_c08_byte Release LE o 16 2 None [7; 5] le = Ok r /\
+            run_c08_byte Release BE o 16 2 None [3; 9] be = Ok r /\
+            snd r = [[[1; 300; 32767]; [-2; -400; -32768]]%Z] /\ snd (fst r) = le.
+Proof. vm_compute. eexists. repeat split; reflexivity. Qed.
